@@ -16,6 +16,11 @@ PATH_EVENTS = {
 }
 
 
+DIRFD_ARGS = {"os.remove": [1], "os.rmdir": [1], "os.mkdir": [2], "os.rename": [2, 3], "os.link": [2, 3],
+              "os.symlink": [None, 2], "os.utime": [3], "os.chmod": [2]}
+DIRFD_ARGS["os.symlink"] = []
+
+
 def _s(p):
     if isinstance(p, bytes):
         p = p.decode("utf-8", "surrogateescape")
@@ -40,11 +45,15 @@ def _hook(event, args):
             ps = [_s(a) for a in args[:n]]
             if any(p is None for p in ps):
                 return
-            if event in ("os.remove", "os.rmdir", "os.mkdir", "os.rename", "os.link") and len(args) > n and \
-                    any(isinstance(a, int) and a not in (-1,) for a in args[n:]):
-                # dir_fd-relative calls (inside shutil.rmtree); the enclosing rmtree event already covers them
-                if t.in_rmtree:
-                    return
+            # dir_fd-relative calls (inside shutil.rmtree): resolve the descriptor to its directory
+            fds = DIRFD_ARGS.get(event)
+            if fds:
+                for k, idx in enumerate(fds):
+                    if idx < len(args) and isinstance(args[idx], int) and args[idx] >= 0 and not os.path.isabs(ps[k]):
+                        try:
+                            ps[k] = os.path.join(os.readlink(f"/proc/self/fd/{args[idx]}"), ps[k])
+                        except OSError:
+                            pass
             t.record(op, ps, None)
         elif event == "fcntl.flock":
             t.record("flock", [str(args[0])], args[1])
